@@ -18,7 +18,13 @@ Open Scope N_scope.
    — except when nothing is queued and the directory becomes empty ([safe], decided step by step
    on the schedule).  What is missing is exactly the excluded Truncate, for which the statement
    is false.  [grun] threads the set G of chunks that must be readable: WriteChunk adds (ref, chunk),
-   Truncate drops the refs whose file it removed. *)
+   Truncate drops the refs whose file it removed.
+   The schedules include the worker's single atomic actions ([SMicro], and [SSite] = run on to a
+   flushBuffer pause point): flushBuffer is two steps, chkWriter.Flush() and chunkBuffer.clear(),
+   and a Chunk call (or WriteChunk / CutNewFile / Truncate) may fall before, between and after
+   them, for each of the three flushes of writeChunk (finalizeCurFile in cut, buffer full, chunk
+   >= buffer).  The invariant behind the proof says for the intermediate states, too, that every
+   acknowledged chunk is in chunkRefMap, or in chunkBuffer (current file), or in the file's bytes. *)
 Theorem C25_read_your_write_partial : forall crc bufsize qmax fs tr rf r,
   safe crc bufsize qmax (init_state fs) tr ->
   lookup_ref rf (snd (grun crc bufsize qmax (init_state fs) [] tr)) = Some r ->
@@ -52,6 +58,34 @@ Proof.
   right. left. vm_compute. reflexivity.
 Qed.
 
+(* non-vacuity for the flush window, and why the order Flush-then-clear matters: the worker stands
+   just before the chkWriter.Flush() of cut()'s finalizeCurFile, one chunk lives only in
+   chunkBuffer + writer.  It is readable there, readable between Flush() and clear(), readable
+   after clear(); with the two actions swapped (clear first) it would not be. *)
+Definition ex_flush_trace : list step :=
+  [SWrite (ex_rec 1 [0; 2; 9; 9]); SPop; SProc; SDone; SCut; SWrite (ex_rec 2 [0; 1; 7; 7; 7]); SPop;
+   SSite false; SRead (1, 8); SSite true; SRead (1, 8); SMicro; SRead (1, 8); SProc; SRead (1, 8)].
+
+Example C25_flush_window_nonvacuous :
+  let crc := fun _ : list N => 7 in
+  safe crc 65536 4 (init_state []) ex_flush_trace /\
+  snd (run crc 65536 4 (init_state []) ex_flush_trace) =
+    [ORef (1, 8); ONone; OProc true 1 42 0; ONone; ONone; ORef (2, 8); ONone;
+     ONone; ORead (RdOk 1 [0; 2; 9; 9]); ONone; ORead (RdOk 1 [0; 2; 9; 9]); ONone; ORead (RdOk 1 [0; 2; 9; 9]);
+     OProc true 2 43 0; ORead (RdOk 1 [0; 2; 9; 9])] /\
+  (let s := fst (run crc 65536 4 (init_state []) (firstn 8 ex_flush_trace)) in
+   at_site 65536 false s = true /\ wbuf s <> [] /\
+   do_read crc s (1, 8) = RdOk 1 [0; 2; 9; 9] /\
+   do_read crc (flushout s) (1, 8) = RdOk 1 [0; 2; 9; 9] /\       (* between Flush() and clear() *)
+   do_read crc (clearbuf (flushout s)) (1, 8) = RdOk 1 [0; 2; 9; 9] /\
+   do_read crc (clearbuf s) (1, 8) = RdBeyond).                      (* clear() before Flush(): lost for a reader *)
+Proof.
+  cbn zeta. split.
+  - unfold ex_flush_trace. cbn [safe safe_step].
+    repeat split; try (apply ex_wf; [unfold u64_ok, two64N; lia | cbn; lia | cbn; lia]).
+  - vm_compute. repeat split; try reflexivity. discriminate.
+Qed.
+
 (* the excluded schedule: the mapper is opened on files 1 and 2; a chunk is queued (it will open
    file 3); Truncate(3) — what the head passes when only that chunk is still referenced — removes
    files 1 and 2 while the job waits; the worker then cuts file 1, cutAndExpectRef fails, the
@@ -63,7 +97,7 @@ Theorem C25_read_your_write_refuted : forall crc bufsize, exists fs r rf s outs,
   nth 0 outs ONone = ORef rf /\                                   (* WriteChunk returned rf *)
   nth 2 outs ONone = ORead (RdOk (r_enc r) (r_data r)) /\         (* readable while queued *)
   nth 3 outs ONone = OTrunc [1; 2] [] /\ fst rf = 3 /\            (* files 1, 2 removed; rf is in file 3 *)
-  nth 4 outs ONone = OProc false 1 8 /\                           (* the callback gets an error *)
+  nth 4 outs ONone = OProc false 1 8 0 /\                           (* the callback gets an error *)
   nth 6 outs ONone = ORead (RdErr 6).                             (* the chunk is gone *)
 Proof.
   intros crc bufsize.
